@@ -20,7 +20,17 @@ bad = None
 rnd = random.Random(7)
 def mk(n_series, n_terms):
     return [[[rnd.uniform(-5e6, 5e6), rnd.uniform(0, 6.28), rnd.uniform(0, 6000.0)] for _ in range(n_terms)] for _ in range(n_series)]
-if INPUTS['kind'] == 'series':
+if INPUTS['kind'] == 'tables':
+    import importlib, math
+    m = importlib.import_module('pymeeus.' + INPUTS['planet'])
+    rs = sum(t[0] for t in m.VSOP87_L[1] if t[1] == 0 and t[2] == 0) / 1e8
+    re_, a = m.ORBITAL_ELEM[0][1], m.ORBITAL_ELEM[1][0]
+    if abs(18 * rs / math.pi - re_) > 1e-6 * abs(re_):
+        bad = '%s: secular rate of the series %r deg/century, of the element table %r' % (INPUTS['planet'], 18 * rs / math.pi, re_)
+    n = math.radians(re_ / 36525.0)
+    if abs(n * a ** 1.5 / 0.01720209895 - 1) > INPUTS['tol']:
+        bad = '%s: n a^1.5 / k = %r' % (INPUTS['planet'], n * a ** 1.5 / 0.01720209895)
+elif INPUTS['kind'] == 'series':
     for trial in range(20):
         L, B, R = mk(3, 2), mk(2, 2), mk(3, 2)
         e = Epoch(2451545.0 + rnd.uniform(-700000, 700000)); t = (e.jde() - 2451545.0) / 365250.0
@@ -174,23 +184,60 @@ def task_corrections(_):
     return t
 
 
+PLANETS = ['Mercury', 'Venus', 'Earth', 'Mars', 'Jupiter', 'Saturn', 'Uranus', 'Neptune']
+
+
+def task_tables(pl):
+    """the two clauses that are facts about the tables themselves: secular rate of the longitude series = rate of the mean
+    longitude in ORBITAL_ELEM (1e-6), and n^2 a^3 = k^2 (0.1 %, 1 % Saturn..Neptune); pi is a symbolic real in its enclosure"""
+    t = harness.Task('tables %s' % pl)
+    m = loader.mod(pl)
+    R = lambda x: z3.RealVal(repr(float(x)))
+    secular = [term[0] for term in m.VSOP87_L[1] if term[1] == 0 and term[2] == 0]
+    rs = z3.Sum([R(a_) for a_ in secular]) / z3.RealVal(10 ** 8) if secular else z3.RealVal(0)
+    re_, a = R(m.ORBITAL_ELEM[0][1]), R(m.ORBITAL_ELEM[1][0])
+    pi, pi2 = z3.Real('pi'), z3.Real('pi2')
+    enc = [pi > z3.RealVal('3.141592653589793'), pi < z3.RealVal('3.141592653589794'), pi2 > z3.RealVal('9.869604401089357'), pi2 < z3.RealVal('9.869604401089360')]
+    tol = 0.01 if pl in ('Saturn', 'Uranus', 'Neptune') else 0.001
+    inp = lambda mo: {'kind': 'tables', 'planet': pl, 'tol': tol}
+    s1 = z3.Solver()
+    s1.add(*enc)
+    s1.add(z3.Or(18 * rs - re_ * pi > z3.RealVal('1/1000000') * re_ * pi, re_ * pi - 18 * rs > z3.RealVal('1/1000000') * re_ * pi, re_ <= 0))
+    r1 = str(s1.check())
+    t.ob('secular rate of the longitude series = rate of the mean longitude of the element table (1e-6)@' + pl, r1, 0, 'pi in its 1e-15 enclosure; %d secular term(s)' % len(secular))
+    # n [rad/day] = re * pi / (180 * 36525);  n^2 a^3 against ((1 +- tol) k)^2, k = 0.01720209895
+    n2a3 = re_ * re_ * pi2 / z3.RealVal(6574500 ** 2) * a * a * a
+    k2 = z3.RealVal('0.01720209895') * z3.RealVal('0.01720209895')
+    s2 = z3.Solver()
+    s2.add(*enc)
+    s2.add(z3.Or(n2a3 > z3.RealVal(repr((1 + tol) ** 2)) * k2, n2a3 < z3.RealVal(repr((1 - tol) ** 2)) * k2))
+    r2 = str(s2.check())
+    t.ob("Kepler's third law: n^2 a^3 = k^2 within the stated tolerance@" + pl, r2, 0, 'tolerance %g on n a^1.5; pi^2 in its enclosure' % tol)
+    t.reach += 2
+    if r1 == 'sat' or r2 == 'sat':
+        t.cand('C07.tables', inp(None), 'table consistency')
+        if r1 == 'sat' and r2 == 'sat':
+            t.cand('C07.tables', dict(inp(None), both=1), 'table consistency')
+    return t
+
+
 def dispatch(job):
     k, a = job
-    return task_series(a) if k == 'series' else task_corrections(a)
+    return {'series': task_series, 'corr': task_corrections, 'tables': task_tables}[k](a)
 
 
 def main(tier):
     loader.install()
     chk = harness.Check(PID, tier)
-    chk.replays = {'C07.series': REPLAY, 'C07.corr': REPLAY}
-    chk.functions = ['Coordinates.vsop_pos', 'Coordinates.geometric_vsop_pos', 'Coordinates.apparent_vsop_pos']
+    chk.replays = {'C07.series': REPLAY, 'C07.corr': REPLAY, 'C07.tables': REPLAY}
+    chk.functions = ['Coordinates.vsop_pos', 'Coordinates.geometric_vsop_pos', 'Coordinates.apparent_vsop_pos'] + ['%s.VSOP87_L[1] / ORBITAL_ELEM (tables)' % pl for pl in PLANETS]
     shapes = [(2, 2), (3, 1)] if tier == 'quick' else [(2, 2), (3, 1), (3, 2), (6, 1)]
-    chk.run(dispatch, [('series', s) for s in shapes] + [('corr', 0)], 'series evaluator and corrections')
+    chk.run(dispatch, [('series', s) for s in shapes] + [('corr', 0)] + [('tables', pl) for pl in PLANETS], 'series evaluator and corrections')
     chk.bounds = {'table shapes': shapes, 'epoch': 'any JDE in [0, 5.4e6]'}
     chk.stubs = ['geometric/apparent_vsop_pos: vsop_pos -> arbitrary (L, B, R); nutation_longitude -> arbitrary small angle']
     chk.outside = ['size and form of the FK5 and aberration corrections (encoded in task_corrections, but Angle(0, 0, x) with a symbolic x makes the exploration exceed its 600 s budget; only tofk5=False is decided)',
                    'EVERY clause about the values of the eight real series (latitude / radius bounds, monotone longitude, agreement with the Kepler solution of the mean elements): '
                    'thousands of cosine terms of a symbolic epoch have no encoding; a changed series coefficient is NOT detected by this check',
-                   'mean-longitude rate vs ORBITAL_ELEM and Kepler\'s third law on the concrete tables (not built)']
+                   'a changed coefficient other than the secular L1 term, ORBITAL_ELEM rate or semi-major axis']
     chk.assumptions = ['real arithmetic; cosines of equal arguments are the same atom']
     return chk.finish()
